@@ -757,6 +757,11 @@ func (b *outlierDetectionBalancer) successRateAlgorithm() {
 		successRate := float64(bucket.numSuccesses) / float64(bucket.numSuccesses+bucket.numFailures)
 		requiredSuccessRate := mean - stddev*(float64(ejectionCfg.StdevFactor)/1000)
 		if successRate < requiredSuccessRate {
+			if !epInfo.latestEjectionTimestamp.IsZero() {
+				// Already ejected (in an earlier interval, or by the other
+				// algorithm in this one): ejecting it again would count it twice.
+				continue
+			}
 			channelz.Infof(logger, b.channelzParent, "SuccessRate algorithm detected outlier: %s. Parameters: successRate=%f, mean=%f, stddev=%f, requiredSuccessRate=%f", epInfo, successRate, mean, stddev, requiredSuccessRate)
 			// Check if max ejection percentage would prevent ejection.
 			if b.numEndpointsEjected*100 >= int(b.cfg.MaxEjectionPercent)*b.endpoints.Len() {
@@ -790,6 +795,11 @@ func (b *outlierDetectionBalancer) failurePercentageAlgorithm() {
 		bucket := epInfo.callCounter.inactiveBucket
 		failurePercentage := (float64(bucket.numFailures) / float64(bucket.numSuccesses+bucket.numFailures)) * 100
 		if failurePercentage > float64(b.cfg.FailurePercentageEjection.Threshold) {
+			if !epInfo.latestEjectionTimestamp.IsZero() {
+				// Already ejected (in an earlier interval, or by the other
+				// algorithm in this one): ejecting it again would count it twice.
+				continue
+			}
 			channelz.Infof(logger, b.channelzParent, "FailurePercentage algorithm detected outlier: %s, failurePercentage=%f", epInfo, failurePercentage)
 			// Check if max ejection percentage would prevent ejection.
 			if b.numEndpointsEjected*100 >= int(b.cfg.MaxEjectionPercent)*b.endpoints.Len() {
